@@ -151,6 +151,13 @@ impl<'a, 'tcx> Ex<'a, 'tcx> {
                 if let ty::FnDef(did, _) = ty.kind() {
                     v.push(("fn", s(self.tcx.def_path_str(*did))));
                 }
+                // pointer to a static item: name it
+                if let mir::Const::Val(mir::ConstValue::Scalar(rustc_middle::mir::interpret::Scalar::Ptr(ptr, _)), _) = c.const_ {
+                    let aid = ptr.provenance.alloc_id();
+                    if let Some(rustc_middle::mir::interpret::GlobalAlloc::Static(did)) = self.tcx.try_get_global_alloc(aid) {
+                        v.push(("static", s(self.tcx.def_path_str(did))));
+                    }
+                }
                 let env = ty::TypingEnv::post_analysis(self.tcx, self.def.to_def_id());
                 if ty.is_integral() || ty.is_bool() || ty.is_char() {
                     if let Some(si) = c.const_.try_eval_scalar_int(self.tcx, env) {
